@@ -35,7 +35,7 @@ def run(fn):
         return fn, 'FALSE-ALARM' if bad else 'silent', '; '.join(bad)
     finally:
         shutil.rmtree(scratch, ignore_errors=True)
-fns = sorted(f for f in os.listdir(D) if f.endswith('.diff'))
+fns = [f for f in sorted(os.listdir(D)) if f.endswith('.diff') and (len(sys.argv)<2 or f[:-5] in sys.argv[1:])]
 fail = 0
 with concurrent.futures.ThreadPoolExecutor(max_workers=3) as ex:
     for fn, st, detail in ex.map(run, fns):
